@@ -35,7 +35,11 @@ func runC41(c *core.Ctx) {
 			ok, why := false, "no dominating `len(GetStorage(id)) == 0` test for the returned identifier"
 			for _, cd := range core.CondsAt(r.Block()) {
 				f := core.FactOf(cd)
-				if f.Op != "==" || !(f.A == "0" && strings.HasPrefix(f.B, "len(")) {
+				lenKey := f.B
+				if strings.HasPrefix(f.A, "len(") {
+					lenKey = f.A
+				}
+				if ub, has := f.UpperBound(lenKey); !has || ub > 0 || !strings.HasPrefix(lenKey, "len(") {
 					continue
 				}
 				// find the GetStorage call inside the len
